@@ -224,6 +224,14 @@ func checkMain(repo, verifRoot, prop, tier, replayFile string, verbose bool) int
 				e.obligations = kept
 			}
 		}
+		for _, x := range pc.Extra {
+			if strings.HasPrefix(x, "tables:") && mod == "mpc/binance/"+x[7:] {
+				if err := e.tableObligations(repo, x[7:]); err != nil {
+					contractErrs = append(contractErrs, "tables:"+x[7:]+": "+err.Error())
+				}
+				funcsUnderContract[x[7:]+".tables (msgURL2Round, broadcastMessages)"] = true
+			}
+		}
 		e.solveAll()
 		for _, g := range e.groups() {
 			gr := &groupResult{Name: g.name, Kind: g.kind, Status: g.status, N: len(g.instances)}
